@@ -228,11 +228,12 @@ func (o *c12Obs) observe(w *gWorld, ev *gEvent) {
 
 func TestVerifC12(t *testing.T) {
 	r := verifkit.Start(t, "C12", "group")
+	gSeedSalt = r.Seed
 	defer r.Finish("real GroupCoordinator over the real InMemoryStore on synctest virtual time; PRNG op lists (join new/existing with random subscriptions, sync, heartbeat, leave, commit, time advance incl. session/rebalance expiry, well-behaved settle rounds) for <=4 members, <=3 store topics of 1-5 partitions plus an optional topic missing from the store. At every successful SyncGroup reply of the group's current generation (generation/membership read from the stored group record): decoded assignment has only topics of that member's latest subscription; pairwise disjoint from what other current members received in the same generation; identical to what the same member received earlier in that generation; once every current member has synced, the union covers every partition (store metadata as of the generation's first successful sync; an administrator op adds partitions between requests) of every topic subscribed by >=1 member exactly once. non-trivial = case in which a generation of >=2 members was fully synced",
 		"subscription of a member = the one sent with its latest JoinGroup", "topics absent from the store have no partitions in the oracle's universe (the phantom partition 0 is neither required nor forbidden)", "assignment bytes decoded with franz-go kmsg.ConsumerMemberAssignment")
 	p := gDefaultProfile
 	p.WGrow = 3
-	n := r.N(1200, 40000)
+	n := r.N(800, 40000)
 	seen := func(w *gWorld, ev *gEvent) { r.Seen("group_states", w.stateSig(ev.After)) }
 	account := func(ci int, w *gWorld, o *c12Obs) {
 		if w.blocked {
